@@ -42,7 +42,7 @@ type crashCase struct {
 	Kind    string     `json:"kind"`
 	Shape   crashShape `json:"shape"`
 	Tag     string     `json:"tag"` // suffix of the pod / node names of this rig (part of the crash address)
-	At      string     `json:"at"` // crash address (after this call), "" = before the first call
+	At      string     `json:"at"`  // crash address (after this call), "" = before the first call
 	Nodes   []string   `json:"nodes"`
 	IDs     []int      `json:"ids"`
 	Pre     stJ        `json:"pre"`
